@@ -14,6 +14,7 @@ def stepC02 (toks : List String) : String :=
   | "nx" :: _ => Hive.JsonDec.stepLine toks
   | "jt" :: _ => Hive.JsonDec.stepLine toks
   | "x" :: _ => "oracle-only"
+  | "jx" :: _ => "oracle-only"
   | _ => "bad-op"
 
 def main : IO Unit := Hive.Proto.run () (fun s toks => (s, stepC02 toks))
